@@ -5,7 +5,7 @@ E-bfs over histories.  Observed state after every event = (sha256 of the genome 
  * CLI alphabet (12 events incl. failing commands): every sequence to depth 2 (thorough 3) inside one interpreter (click CliRunner), the state checked
    after every event; plus every event and every ordered pair of distinct kinds... in a FRESH interpreter (subprocess) - no hidden in-process state.
    Every transition must be a self-loop: exactly one reachable on-disk state; a second state IS the violation and its history is the replay.
- * Library alphabet: load; query(); ORM read; edit an attribute; add a Taxon; delete a genome; flush(); a query that would autoflush; commit() (must
+ * Library alphabet: asking for a WRITABLE session maker / opening and closing a writable session on the same file beforehand (nothing written); load; query(); ORM read; edit an attribute; add a Taxon; delete a genome; flush(); a query that would autoflush; commit() (must
    raise); rollback(); close(); drop references + gc; signatures.close().  Breadth-first over all histories to depth 4 (thorough 5), deduplicated on
    (disk state, abstract session state); every history is replayed on fresh real objects.  Invariants: bytes unchanged after every event; commit()
    raises; pending changes are still pending after flush / autoflush.
@@ -145,7 +145,7 @@ def t_cli_fresh(part, nparts, pairs):
 
 # ------------------------------------------------------------------------------------------------ library histories
 
-LIB_EVENTS = ['load', 'query', 'orm-read', 'edit-attr', 'add-taxon', 'delete-genome', 'flush', 'autoflush-query', 'commit', 'rollback', 'close-session', 'gc', 'close-sigs']
+LIB_EVENTS = ['writable-sessionmaker-cls', 'writable-sessionmaker-flag', 'writable-session-open-close', 'load', 'query', 'orm-read', 'edit-attr', 'add-taxon', 'delete-genome', 'flush', 'autoflush-query', 'commit', 'rollback', 'close-session', 'gc', 'close-sigs']
 
 
 class World:
@@ -155,17 +155,23 @@ class World:
 		self.sigs_closed = False
 		self.session_closed = False
 		self.pending = 0       # number of edit/add/delete operations since load / rollback / close
+		self.done_writable = []
 
 	def key(self):
 		if self.db is None:
-			return ('unloaded',)
+			return ('unloaded', tuple(self.done_writable))
 		s = self.db.session
 		return ('loaded', len(s.new), len(s.dirty), len(s.deleted), self.session_closed, self.sigs_closed)
 
 
+WRITABLE = ['writable-sessionmaker-cls', 'writable-sessionmaker-flag', 'writable-session-open-close']
+
+
 def lib_enabled(w):
 	if w.db is None:
-		return ['load']
+		# before the database is loaded: somebody else in the process may have asked for a WRITABLE session maker on the same file
+		# (without writing anything) - the default session obtained afterwards must still be read-only
+		return ['load'] + [e for e in WRITABLE if e not in w.done_writable]
 	ev = ['orm-read', 'edit-attr', 'add-taxon', 'delete-genome', 'flush', 'autoflush-query', 'commit', 'rollback', 'close-session', 'gc', 'load']
 	if not w.sigs_closed:
 		ev += ['query', 'close-sigs']
@@ -177,6 +183,20 @@ def lib_apply(w, ev):
 	from gambit.db import ReferenceDatabase
 	from gambit.db.models import Taxon, Genome, AnnotatedGenome
 	from gambit.query import query
+	if ev in WRITABLE:
+		from sqlalchemy.orm import Session
+		from gambit.db.sqla import file_sessionmaker
+		gdb = os.path.join(w.fx.dbdir, 'ref.gdb')
+		if ev == 'writable-sessionmaker-cls':
+			file_sessionmaker(gdb, cls=Session)
+		elif ev == 'writable-sessionmaker-flag':
+			file_sessionmaker(gdb, readonly=False)
+		else:
+			sess = file_sessionmaker(gdb, readonly=False)()
+			sess.execute(__import__('sqlalchemy').text('select count(*) from genomes')).fetchall()
+			sess.close()
+		w.done_writable.append(ev)
+		return None
 	if ev == 'load':
 		if w.db is not None:
 			old = w.db
@@ -185,6 +205,9 @@ def lib_apply(w, ev):
 		w.db = ReferenceDatabase.load_from_dir(w.fx.dbdir)
 		w.sigs_closed = w.session_closed = False
 		w.pending = 0
+		from gambit.db import ReadOnlySession
+		if not isinstance(w.db.session, ReadOnlySession):
+			return dict(kind='default-session-is-not-read-only', session_class=type(w.db.session).__name__)
 		return None
 	s = w.db.session
 	if ev == 'query':
@@ -242,6 +265,7 @@ def lib_apply(w, ev):
 
 def lib_replay(fx, hist):
 	"""Replay a history on fresh real objects; returns (world, violation or None, disk state after every event)."""
+	fixtures.reset_gambit_globals()       # own the library's module-level state: every history starts as in a fresh interpreter
 	w = World(fx)
 	s0 = disk_state(fx.dbdir)
 	for i, ev in enumerate(hist):
@@ -285,8 +309,10 @@ def t_library(depth, part, nparts):
 	sh = Shard()
 	with fixtures.workdir('c18l') as d:
 		fx = clifix.build(os.path.join(d, 'fx'), params=['P0'])
+		import gambit.db, gambit.db.sqla, gambit.query, gambit.results, gambit.cli      # import everything first, then snapshot the globals
+		fixtures.reset_gambit_globals()
 		seen = {}
-		frontier = [('load',)]
+		frontier = [('load',)] + [(e,) for e in WRITABLE] + [(a, b) for a in WRITABLE for b in WRITABLE if a != b]
 		level = 1
 		while frontier and level <= depth:
 			nxt = []
@@ -310,7 +336,9 @@ def t_library(depth, part, nparts):
 					continue
 				seen[key] = hist
 				for j, ev in enumerate(enabled):
-					if len(hist) == 1 and j % nparts != part:
+					if hist[-1] == 'load' and hist.count('load') == 1 and j % nparts != part:
+						continue      # the subtrees below the first 'load' are split between the tasks
+					if hist[-1] != 'load' and 'load' not in hist and part != 0 and ev != 'load':
 						continue
 					nxt.append(hist + (ev,))
 			frontier = nxt
